@@ -13,6 +13,9 @@ PREFIXES = ["C03.", "C01.", "Any.Crash"]
 
 def run(chk):
     cerlib.run_config(chk, "C03", PREFIXES)
+    # assertions with credentials made under another authenticator configuration (what an assertion may change in the
+    # stored record is the same whatever the configuration: the counter of the credential it used)
+    cerlib.run_config(chk, "Rebuild", PREFIXES)
     cerlib.run_config(chk, "C03client" if chk.tier == "thorough" else "C03clientQ", PREFIXES)
     cerlib.random_histories(chk, PREFIXES, quick_n=150)
     cerlib.finish_cov(chk, "one behaviour per (registration history, request RP, allow list, list given or not, verification requirement)",
